@@ -21,7 +21,14 @@ def native_helpers(LOG, params, spec):
         k = n_posts(LOG, evs[0])
         return k // 2 if len(evs) > 1 and evs[0] == evs[1] else k
 
+    def delay_adds():
+        return [c for c in LOG if c.get("cls") == "DelayManager" and c["method"] in ("add", "reset", "add_if_doesnt_exist")]
+
     return {
+        "delayed_call_is_new": lambda: len(delay_adds()) == 1 and delay_adds()[0]["method"] == "add" and
+        delay_adds()[0]["args"][2] is None and not any(c.get("cls") == "DelayManager" and c["method"] in ("remove", "clear") for c in LOG),
+        "delayed_call_args": lambda cb, ms: len(delay_adds()) == 1 and delay_adds()[0]["args"][0] == ms and
+        delay_adds()[0]["args"][1] is cb,
         "n_posts": lambda name: n_posts(LOG, name),
         "n_posts_total": lambda: len(posts(LOG)),
         "post_kw": post_kw,
